@@ -227,6 +227,29 @@ def fromEpName (s : List Char) : Option (List Char × Ver) :=
   | [n, v] => (parseSemVer v).map (fun ver => (n, ver))
   | _ => none
 
+/-! ## The two registration paths, from the strings they are given -/
+
+/-- `ep_name_has_namespace`, on the name part: `len(name.split(".", 1)) > 1`. -/
+def hasNamespace (n : List Char) : Bool := n.contains '.'
+
+/-- `PluginGroup._add_ep(epname_str, ep_obj)` on the version table of the group `grp` (`isBase`:
+`type(self) is PluginGroup`): `none` = raises (`ValueError`: not an entry point name, or a name
+without namespace in a group other than the group of plugin groups), else the reference parsed
+from the entry point name is registered. -/
+def addEp (grp : String) (isBase : Bool) (t : Table) (e : List Char) : Option Table :=
+  if isEpName e then
+    match fromEpName e with
+    | some (n, v) =>
+      if !isBase && !hasNamespace n then none else some (register t ⟨grp, String.ofList n, v⟩)
+    | none => none
+  else none
+
+/-- `register_in_group(pgroup, plugin, violently=True)` for a class whose inner `Plugin` says
+`name = n`, `version = v`: `none` = raises (`TypeError` from `to_ep_name`: the name is not a valid
+plugin name), else the reference is registered. -/
+def registerManual (grp : String) (t : Table) (n : List Char) (v : Ver) : Option Table :=
+  if isEpName (toEpName n v) then some (register t ⟨grp, String.ofList n, v⟩) else none
+
 end MetadorModel.Plugin
 
 namespace MetadorModel.Plugin
